@@ -65,6 +65,28 @@ theorem C01_filter_faithful (tt : UInt8) (htt : tt ≠ 0) (f g : Filter.Filter) 
   rw [Filter.decompile_encode tt htt f, Filter.decompile_encode tt htt g] at h
   exact Filter.render_injective f g wf wg (by simpa using h)
 
+/-- the same on the wire, for the source as it is now: two search requests whose filters are within the grammar and
+    which the handler cannot tell apart carried the same filter (and, by `C01_current_filter`, the same everything) -/
+theorem C01_search_faithful (ext : Nat → Bytes → Bool) (tt : UInt8) (htt : tt ≠ 0)
+    (id id' : Int) (base base' : Bytes) (sc sc' de de' sz sz' tm tm' : Int) (ty ty' : Bool) (f g : Filter.Filter)
+    (attrs attrs' : List Bytes) (ctls ctls' : List CCtl) (rest rest' : Bytes)
+    (wf : Filter.WF f) (wg : Filter.WF g)
+    (hw : (CReq.search id base sc de sz tm ty (Filter.encode tt f) attrs ctls).WF)
+    (hw' : (CReq.search id' base' sc' de' sz' tm' ty' (Filter.encode tt g) attrs' ctls').WF)
+    (hb : (clientEncode tt (.search id base sc de sz tm ty (Filter.encode tt f) attrs ctls)).WF ext)
+    (hb' : (clientEncode tt (.search id' base' sc' de' sz' tm' ty' (Filter.encode tt g) attrs' ctls')).WF ext)
+    (h : serveFrame (currentEnv ext) Generated.guards
+           (ser (clientEncode tt (.search id base sc de sz tm ty (Filter.encode tt f) attrs ctls)) ++ rest) =
+         serveFrame (currentEnv ext) Generated.guards
+           (ser (clientEncode tt (.search id' base' sc' de' sz' tm' ty' (Filter.encode tt g) attrs' ctls')) ++ rest')) :
+    f = g := by
+  rw [C01_current_filter ext tt htt _ hw hb f rest (by
+        intro _ _ _ _ _ _ _ x _ _ e; injection e with _ _ _ _ _ _ _ e _ _; exact e.symm),
+      C01_current_filter ext tt htt _ hw' hb' g rest' (by
+        intro _ _ _ _ _ _ _ x _ _ e; injection e with _ _ _ _ _ _ _ e _ _; exact e.symm)] at h
+  simp only [expected, Outcome.ok.injEq, Msg.search.injEq] at h
+  exact Filter.render_injective f g wf wg h.2.2.2.2.2.2.2.1
+
 /-- "(cn:dn:=foo)" -/
 def exDnFilter : Filter.Filter := .ext none (some [99, 110]) [102, 111, 111] true
 
